@@ -40,7 +40,9 @@ func recLine(t *chainx.Tree, nd *chainx.Node, id int) string {
 	return fmt.Sprintf("hdr %d body %d supp %d state %d", f(hdr), f(body), f(supp), f(state))
 }
 
-func headerOf(nd *chainx.Node, id types.BlockID) (types.BlockHeader, bool) { return nd.Store.Header(id) }
+func headerOf(nd *chainx.Node, id types.BlockID) (types.BlockHeader, bool) {
+	return nd.Store.Header(id)
+}
 
 func idOf(t *chainx.Tree, id types.BlockID) int {
 	i, ok := t.Lookup(id)
@@ -270,8 +272,15 @@ func Run(r *vh.Run) {
 	for i := 0; i < trees; i++ {
 		trng := rng.Fork()
 		net := chainx.RandomNet(trng)
-		t := chainx.GenTree(trng, net, chainx.GenCfg{Main: 4 + trng.Intn(10), Forks: 1 + trng.Intn(3), MaxBranch: 3 + trng.Intn(8),
+		t, gerr := chainx.SafeGenTree(trng, net, chainx.GenCfg{Main: 4 + trng.Intn(10), Forks: 1 + trng.Intn(3), MaxBranch: 3 + trng.Intn(8),
 			Kinds: chainx.BasicKinds, TxPerBlk: 1, Corrupt: trng.Intn(2), Extend: 2})
+		if gerr != nil {
+			gc := &vh.Case{Name: fmt.Sprintf("tree%d/generator", i), Nontrivial: true}
+			gc.Op("build-history", "panic")
+			gc.Oracle("linear-node-panicked-while-building-history", "a node fed a linear chain of freshly mined blocks panicked or rejected a valid block: %v", gerr)
+			r.Add(gc)
+			continue
+		}
 		for s := 0; s < 2; s++ {
 			sched := t.Schedule(trng)
 			// resubmit whole paths at the end (pruned best-chain blocks come back)
